@@ -252,6 +252,20 @@ impl OptimizedExpr {
                     let mapped = Box::new(map_internal(*expr, f));
                     OptimizedExpr::Push(mapped)
                 }
+                #[cfg(feature = "grammar-extras")]
+                OptimizedExpr::RepOnce(expr) => {
+                    let mapped = Box::new(map_internal(*expr, f));
+                    OptimizedExpr::RepOnce(mapped)
+                }
+                #[cfg(feature = "grammar-extras")]
+                OptimizedExpr::NodeTag(expr, tag) => {
+                    let mapped = Box::new(map_internal(*expr, f));
+                    OptimizedExpr::NodeTag(mapped, tag)
+                }
+                OptimizedExpr::RestoreOnErr(expr) => {
+                    let mapped = Box::new(map_internal(*expr, f));
+                    OptimizedExpr::RestoreOnErr(mapped)
+                }
                 expr => expr,
             }
         }
@@ -298,6 +312,20 @@ impl OptimizedExpr {
                 OptimizedExpr::Push(expr) => {
                     let mapped = Box::new(map_internal(*expr, f));
                     OptimizedExpr::Push(mapped)
+                }
+                #[cfg(feature = "grammar-extras")]
+                OptimizedExpr::RepOnce(expr) => {
+                    let mapped = Box::new(map_internal(*expr, f));
+                    OptimizedExpr::RepOnce(mapped)
+                }
+                #[cfg(feature = "grammar-extras")]
+                OptimizedExpr::NodeTag(expr, tag) => {
+                    let mapped = Box::new(map_internal(*expr, f));
+                    OptimizedExpr::NodeTag(mapped, tag)
+                }
+                OptimizedExpr::RestoreOnErr(expr) => {
+                    let mapped = Box::new(map_internal(*expr, f));
+                    OptimizedExpr::RestoreOnErr(mapped)
                 }
                 expr => expr,
             };
@@ -416,7 +444,12 @@ impl OptimizedExprTopDownIterator {
             | OptimizedExpr::NegPred(expr)
             | OptimizedExpr::Rep(expr)
             | OptimizedExpr::Opt(expr)
-            | OptimizedExpr::Push(expr) => {
+            | OptimizedExpr::Push(expr)
+            | OptimizedExpr::RestoreOnErr(expr) => {
+                self.next = Some(*expr);
+            }
+            #[cfg(feature = "grammar-extras")]
+            OptimizedExpr::RepOnce(expr) | OptimizedExpr::NodeTag(expr, _) => {
                 self.next = Some(*expr);
             }
             _ => {
